@@ -316,6 +316,19 @@ def check(model: Model, run: Run) -> None:
     if n7 < 4:
         run.cannot('only %d calls producing a refusal generator found' % n7)
 
+    # ------------------------------------------------------------------ R8 the error that was meant is the one that is sent
+    run.rule(
+        'C10.R8',
+        'the NOTIFICATION that names the error can be built: the text of every Notify / NotifyError is ASCII whatever the peer '
+        "sent (Notify.__init__ encodes it with bytes(data, 'ascii')); a peer-chosen string in it raises UnicodeEncodeError in place "
+        'of the Notify, and the catch-all of read_message answers 1/0 (Message Header Error) for what is an OPEN or UPDATE error '
+        '(shared with C03.R7)',
+        floor=100,
+    )
+    from .C03 import _r7_notify_text
+
+    _r7_notify_text(model, run)
+
     # ------------------------------------------------------------------ R5
     run.rule('C10.R5', 'every registered message type is handled or refused in ESTABLISHED: UPDATE and ROUTE-REFRESH have handlers, KEEPALIVE feeds the timer, NOTIFICATION is raised by read_message, anything else (OPEN) must be refused with 5/3', floor=3)
     _r5_types(model, run, folder)
